@@ -157,6 +157,12 @@ func New(id string) *Run {
 		fmt.Sscanf(v, "%d/%d", &r.ShardI, &r.ShardN)
 		r.maxReplays = 2
 	}
+	if r.ShardN == 0 && os.Getenv("VERIF_REPLAY") == "" {
+		old, _ := filepath.Glob(filepath.Join(Root, "replays", id, tier+"-*.json"))
+		for _, f := range old {
+			_ = os.Remove(f)
+		}
+	}
 	if d := os.Getenv("VERIF_DEADLINE_S"); d != "" {
 		if s, err := strconv.Atoi(d); err == nil && s > 0 {
 			r.Deadline = r.start.Add(time.Duration(s) * time.Second)
